@@ -5,10 +5,11 @@ class C29(Spec):
     prop = "C29"
     drv = "drv_c29"
     harness = "h_c29"
-    lean_deps = ("C25",)
-    required_theorems = ("C29.crash_prefix_consistent", "C29.writes_replay_run", "C29.resume_converges")
-    partial = ()
-    refuted = ()
+    lean_deps = ("C25", "C26")
+    required_theorems = ("C29.crash_prefix_consistent", "C29.writes_replay_run", "C29.resume_converges_partial",
+                         "C29.resume_full_false", "C29.resume_suffix_only_false")
+    partial = ("C29.resume_converges_partial",)
+    refuted = ("C29.resume_full_false", "C29.resume_suffix_only_false")
     quick_timeout = 3600
     thorough_timeout = 14400
     level_text = ("Lean theorems about the write-sequence model of block connection (durable state = blockchain db + state "
@@ -17,10 +18,15 @@ class C29(Spec):
                   "the start-up logic), built on the C25 chain model: for EVERY delivery history over a block tree and EVERY "
                   "crash point, start-up succeeds and the recovered best chain is exactly the chain the run had reached after "
                   "that write (inside a reorganisation: common prefix + part attached so far), height / last block / "
-                  "height->hash / tx index / stored blocks / total difficulties are mutually consistent and the state of every "
-                  "chain block is in the store (crash_prefix_consistent); continuing delivery from the recovered node reaches the "
-                  "same final chain as the uninterrupted run (resume_converges, by a lock-step simulation with a fresh node fed "
-                  "the recovered chain + C25.order_independent); replaying all writes yields the C25 final state "
+                  "height->hash / tx index / stored blocks / total difficulties are mutually consistent, the state of every "
+                  "chain block is in the store and the surviving sequence log is gap-free and replays (C26) to the recovered "
+                  "chain (crash_prefix_consistent); continuing delivery from the recovered node reaches the "
+                  "same final chain as the uninterrupted run IF the heaviest block is unique and at least the margin high and "
+                  "every block is delivered again (resume_converges_partial, by a lock-step simulation with a fresh node fed "
+                  "the recovered chain + C25.order_independent); the unconditional clause is REFUTED: with a total-difficulty "
+                  "tie at the top the resumed node ends on the other, equally heavy branch (resume_full_false, replayed on the "
+                  "real code by corpus/C29/tie-resume.ops -> finding), and re-delivering only the not-yet-delivered blocks "
+                  "strands the successors of forgotten side-chain blocks in the orphan pool (resume_suffix_only_false); replaying all writes yields the C25 final state "
                   "(writes_replay_run). Tie: a goleveldb wrapper (build tag verif) counts/logs every durable write of the "
                   "blockchain and store databases; the uninterrupted run's write classes are compared with the model's write "
                   "sequence; the history is re-run in child processes killed right after the k-th write (quick: stratified "
@@ -32,13 +38,17 @@ class C29(Spec):
     level_note = ("LevelDB batch atomicity and durability of completed writes are assumed (process crash between writes, not "
                   "power loss/torn writes); in-flight goroutines (wallet, mempool, push) and their databases are outside the "
                   "model; all delivered blocks are valid; the state store is modelled at the granularity 'state tree of block b "
-                  "completely present' (a state batch adds the nodes new relative to the parent's tree); resume_converges is for "
-                  "a node without finaliser (finalised height 0, as in the tie) and a continuation that (re-)delivers every "
-                  "block; cache/orphan-pool limits of C25 not reached; sequence recording on or off, push subscription off.")
+                  "completely present' (a state batch adds the nodes new relative to the parent's tree); no finaliser is configured: "
+                  "the finaliser's own point writes (finalizer.setFinalizedBlock / reset -> snowChoiceKey) are NOT in the write "
+                  "model (none occurs in the logged runs) and recover restarts from the initial finalised height, so "
+                  "resume_converges_partial is stated for finalised height 0; ProcessBlock calls are serialised (one delivery "
+                  "completes before the next starts), as in C25; cache/orphan-pool limits of C25 not reached; sequence recording on or off, push subscription off.")
     assumptions = (
         "LevelDB applies each batch atomically and a completed write survives a process crash (fsync/torn writes not modelled)",
         "delivered blocks are valid and execute successfully; C25's cache and orphan-pool limits are not reached",
-        "no finaliser (finalised height 0) for resume_converges; after restart every block is delivered again",
+        "no finaliser configured: finalised height 0, no finalizer.setFinalizedBlock/reset point writes (not in the write model; recover uses the initial finalised height)",
+        "resume: unique heaviest block at least the margin high, and after restart every block is delivered again (block synchronisation re-requests unknown parents)",
+        "ProcessBlock calls are serialised: deliveries are atomic steps (in the node they are dispatched on goroutines and the orphan/exists checks run outside chainLock)",
         "wallet/mempool/push goroutines and databases other than blockchain and store are outside the model",
         "difficulty.CalcWork behaves as C20.calcWork (tied by C20)",
     )
